@@ -426,6 +426,7 @@ func Sources(ctx context.Context, pgp *pgxpool.Pool) ([]Source, error) {
 			return nil, fmt.Errorf("scanning source: %w", err)
 		}
 		s.URLs = append(s.URLs, urlStr)
+		s.PollDuration = time.Second
 		res = append(res, s)
 	}
 	return res, nil
